@@ -13,13 +13,19 @@ import (
 
 // The per-case watchdog (DESIGN §2.4, §4 C15). Its verdicts do not depend on
 // wall-clock time on a loaded machine:
-//   - livelock: the case has consumed more CPU time than `cpuLimit` (typical
-//     cases need milliseconds; CPU seconds are independent of machine load);
+//   - livelock: the case has consumed more CPU time than `cpuLimit` (300 CPU-s,
+//     1200 in the thorough tier, x4 for cases marked heavy; the heaviest
+//     legitimate case observed needs ~65 CPU-s; CPU seconds do not depend on
+//     machine load, unlike wall-clock time);
 //   - deadlock: no CPU has been consumed for a while AND every goroutine other
 //     than the watchdog is blocked on a channel/lock/condition, so no event
 //     can ever wake them up (the harness has no timers or I/O pending);
 //   - stalled: anything else that exceeds the generous wall-clock limit; this
 //     is reported as inconclusive, never as a violation.
+// heavyCase is set by cases that legitimately burn CPU on many goroutines
+// (16-way concurrent histories under the race detector); their CPU budget is 4x.
+var heavyCase atomic.Int64
+
 type watchdog struct {
 	startCPU  atomic.Int64
 	startWall atomic.Int64
@@ -33,6 +39,7 @@ func processCPU() time.Duration {
 
 func (w *watchdog) begin(i int) {
 	curCase.Store(int64(i))
+	heavyCase.Store(0)
 	w.startCPU.Store(int64(processCPU()))
 	w.startWall.Store(time.Now().UnixNano())
 }
@@ -49,7 +56,7 @@ func envInt(name string, def int) int {
 func startWatchdog(tier string, fire func(kind string, cpu, wall float64, stack string)) *watchdog {
 	w := &watchdog{}
 	w.begin(-1)
-	cpuLimit := time.Duration(envInt("VERIF_CASE_CPU_S", 60)) * time.Second
+	cpuLimit := time.Duration(envInt("VERIF_CASE_CPU_S", 300)) * time.Second
 	idleLimit := time.Duration(envInt("VERIF_CASE_IDLE_S", 90)) * time.Second
 	wallLimit := time.Duration(envInt("VERIF_CASE_WALL_S", 600)) * time.Second
 	if tier == "thorough" {
@@ -74,7 +81,7 @@ func startWatchdog(tier string, fire func(kind string, cpu, wall float64, stack 
 			used := cpu - time.Duration(w.startCPU.Load())
 			wall := now.Sub(time.Unix(0, w.startWall.Load()))
 			switch {
-			case used > cpuLimit:
+			case used > cpuLimit*time.Duration(1+3*heavyCase.Load()):
 				fire("livelock", used.Seconds(), wall.Seconds(), allStacks())
 			case now.Sub(lastProgress) > idleLimit:
 				st := allStacks()
